@@ -261,9 +261,13 @@ func (r *ATRun) PhaseOne(hook func(r *ATRun, localIdx int)) {
 							q, args, tok := st.Render(sc)
 							r.Toks = append(r.Toks, tok)
 							if ltx.ContinueOnError {
+								disarm := st.Arm(w.Eng, sc.Table)
 								tx.ExecContext(ctx, q, args...)
+								disarm()
 							} else if err == nil {
+								disarm := st.Arm(w.Eng, sc.Table)
 								_, err = tx.ExecContext(ctx, q, args...)
+								disarm()
 							}
 						}
 						if err != nil {
@@ -276,7 +280,9 @@ func (r *ATRun) PhaseOne(hook func(r *ATRun, localIdx int)) {
 					st := ltx.Stmts[0]
 					q, args, tok := st.Render(sc)
 					r.Toks = append(r.Toks, tok)
+					disarm := st.Arm(w.Eng, sc.Table)
 					_, err = w.DB.ExecContext(ctx, q, args...)
+					disarm()
 				}
 				brs := w.coord.RegisteredBranches(tmXID(ctx))
 				if err != nil && os.Getenv("VERIF_DEBUG") != "" {
